@@ -135,6 +135,28 @@ type translator struct {
 	skippedLocal  int
 	userCallbacks map[string]bool
 	externals     map[string]int
+	uf            map[Loc]Loc // content locations that denote the same memory (field-to-field aliasing)
+}
+
+func (t *translator) find(l Loc) Loc {
+	for {
+		p, ok := t.uf[l]
+		if !ok || p == l {
+			return l
+		}
+		l = p
+	}
+}
+
+func (t *translator) union(a, b Loc) {
+	ra, rb := t.find(a), t.find(b)
+	if ra == rb {
+		return
+	}
+	if rb.String() < ra.String() {
+		ra, rb = rb, ra
+	}
+	t.uf[rb] = ra
 }
 
 type site struct {
@@ -396,9 +418,9 @@ func (w *walker) expr(e ast.Expr) val {
 				if _, isId := kv.Key.(*ast.Ident); !isId {
 					w.expr(kv.Key)
 				}
-				w.escapingValue(kv.Value)
+				w.escapingAlias(kv.Value, "a composite literal")
 			} else {
-				w.escapingValue(el)
+				w.escapingAlias(el, "a composite literal")
 			}
 		}
 		return val{}
@@ -477,6 +499,18 @@ func (w *walker) escapingValue(e ast.Expr) {
 	v := w.expr(e)
 	if v.fn != nil && v.fn.kind == "lit" {
 		w.inlineLit(v.fn, nil, e.Pos())
+	}
+}
+
+// escapingAlias: a slice/map value that refers to a field's content is stored where the walker
+// cannot follow it (composite literal, channel): fail closed
+func (w *walker) escapingAlias(e ast.Expr, where string) {
+	v := w.expr(e)
+	if v.fn != nil && v.fn.kind == "lit" {
+		w.inlineLit(v.fn, nil, e.Pos())
+	}
+	if tv, ok := w.t.l.info.Types[e]; ok && isRefType(tv.Type) && len(v.alias) > 0 && !w.mute {
+		w.fatal(e.Pos(), "a slice/map that refers to the content of %v escapes into %s: alias shape not followed", v.alias, where)
 	}
 }
 
@@ -1505,7 +1539,7 @@ func (w *walker) inlineLit(fv *funcVal, c *ast.CallExpr, p token.Pos) val {
 		w.tauTo(cont, p, "return from closure")
 		w.s = st{node: cont, ls: fr.exitLS}
 	}
-	return val{}
+	return val{alias: fr.retAlias}
 }
 
 func (w *walker) doReturn(p token.Pos) {
